@@ -478,12 +478,12 @@ def case_coq(case, obs):
     dumps = sorted((int(k), v) for k, v in obs["dumps"].items())
     sdumps = sorted((int(k), v) for k, v in obs["snap_dumps"].items())
     clean = all(dump_clean(v) for _, v in dumps) and all(dump_clean(v) for _, v in sdumps) and not obs.get("panic")
-    return "(mkCase %s %s %s %s %s %s %s %s)" % (
+    return "(mkCase %s %s %s %s %s %s %s %s %s)" % (
         clist([step_coq(s) for s in case["steps"]]), clist([cb(b) for b in obs["res"]]),
         clist(["(%d%%nat, %s)" % (i, dump_coq(v)) for i, v in dumps]), cb(clean), cb(bool(case.get("prefix"))),
         clist([cb(b) for b in (obs["snap_eq"] or [])]),
         clist(["(%d%%nat, %s)" % (i, dump_coq(v)) for i, v in sdumps]),
-        clist([cb(b) for b in (obs["replay_eq"] or [])]))
+        clist([cb(b) for b in (obs["replay_eq"] or [])]), clist([cb(b) for b in (obs.get("late_eq") or [])]))
 
 
 # --------------------------------------------------------------------------------------
@@ -704,7 +704,8 @@ class Gen:
         if k == "state":
             return {"op": "update_node_state", "id": nid, "state": r.choice(["healthy", "unhealthy", "dead"])}
         if k == "promote":
-            return {"op": "promote", "id": nid, "old": r.choice(["", "a", "b"])}
+            # OldPrimaryID is an informational hint: empty, right, stale and unknown values all occur
+            return {"op": "promote", "id": nid, "old": r.choice(["", "", "a", "b", "c", "d", "ghost"])}
         if k == "demote":
             return {"op": "demote", "id": nid}
         return {"op": "assign_compactor", "id": nid, "old": r.choice(["", "a"])}
@@ -897,9 +898,25 @@ def rbac_prelude(g, r):
     return steps
 
 
+def node_prelude(g, r):
+    """two or three registered writers, usually one of them already promoted: failovers, rejoins and
+    removals of the primary then start from a state in which there is something to break"""
+    steps = []
+    ids = r.sample(NODE_IDS, r.choice([2, 2, 3]))
+    for nid in ids:
+        steps.append({"k": "cmd", "idx": g.next_idx(), "cmd": {"op": "add_node", "node": node(nid, role="writer" if r.random() < 0.9 else "reader")}})
+    if r.random() < 0.8:
+        steps.append({"k": "cmd", "idx": g.next_idx(), "cmd": {"op": "promote", "id": ids[0], "old": r.choice(["", ids[1]])}})
+    if r.random() < 0.5:
+        steps.append({"k": "cmd", "idx": g.next_idx(), "cmd": {"op": "promote", "id": ids[1], "old": r.choice(["", ids[0], ids[-1], "ghost"])}})
+    return steps
+
+
 def gen_case(rng, family, dump_all=False):
     g = Gen(rng)
     steps = []
+    if family in ("node", "node_rbac") and rng.random() < 0.6:
+        steps += node_prelude(g, rng)
     if family in ("rbac", "node_rbac", "mixed") and rng.random() < 0.6:
         steps += rbac_prelude(g, rng)
     steps += g.sequence(family, rng.randint(3, 9))
@@ -997,10 +1014,11 @@ def load_corpus(pid):
     return out
 
 
-def shrink_case(pid, cfg, case, label):
-    """greedy step removal keeping predicate `label` false; one harness run + one coqc per round"""
+def shrink_case(pid, cfg, case, keep):
+    """greedy step removal while keep(ev, j) holds for the candidate (ev = eval_cases result of the
+    candidate list, j its index); one harness run + one coqc per round"""
     cur = case
-    for _ in range(12):
+    for _ in range(14):
         cands = []
         for i in range(len(cur["steps"])):
             if len(cur["steps"]) <= 1:
@@ -1013,18 +1031,23 @@ def shrink_case(pid, cfg, case, label):
             break
         try:
             outs = run_impl(pid, cands, "shrink")
-            bad = eval_cases(pid, cfg, cands, outs, name="Shrink")[label]
+            ev = eval_cases(pid, cfg, cands, outs, name="Shrink")
         except (vlib.TieBroken, vlib.InfraError):
             break
-        if not bad:
+        good = [j for j in range(len(cands)) if keep(ev, j)]
+        if not good:
             break
-        cur = cands[bad[0]]
+        cur = cands[good[0]]
     return cur
 
 
 def run_property(res, pid, tier, seed, theorems, modules, extra_targets, families, n_quick, n_thorough, dump_all):
     rng = random.Random(seed * 7919 + (22 if pid == "C22" else 23))
     failed = vlib.std_proof_stage(res, pid, AREA, modules, theorems, extra_targets=extra_targets)
+    if tier == "thorough" and hasattr(vlib, "coqchk_stage"):
+        ok, _ax = vlib.coqchk_stage(res, modules)
+        if not ok:
+            failed.append(("coqchk", "coqchk did not accept %s (or reported inadmissible axioms)" % ", ".join(modules)))
     res.cov["trusted_base"] += [
         "encoding/json round-trips FSMSnapshot (exercised on every case through the real Persist/Restore, not modelled)",
         "commands reach Apply with strictly increasing raft log indices (hypothesis of the theorems; the generator respects it)",
@@ -1055,6 +1078,8 @@ def run_property(res, pid, tier, seed, theorems, modules, extra_targets, familie
     res.stage("impl_harness", t1)
     cfg = detect_cfg(ws, outs[:len(ws)])
     res.cov["code_variant"] = {k: ("repaired" if v else "as-is (defect present)") for k, v in cfg.items()}
+    relevant = {"C22": ("tokname", "filedb"), "C23": ("promote", "addws", "remove")}[pid]
+    res.cov["primary_theorems_apply"] = all(cfg[k] for k in relevant)   # the unguarded theorems are stated for the repaired variant
     t2 = time.time()
     ev = eval_cases(pid, cfg, cases, outs, name="Cases_%s_%s" % (pid, tier))
     res.stage("coq_eval", t2)
@@ -1083,16 +1108,27 @@ def run_property(res, pid, tier, seed, theorems, modules, extra_targets, familie
 
     known = {e["signature"]: e for e in vlib.known_for(pid)}
     reported = False
-    # 1. correspondence
+    inside = lambda e, j: all(j not in e[g] for g in guards)
+    violates = lambda e, j: j in e[orc] and inside(e, j)          # property fails inside the theorems' domain
+    # 1. correspondence.  Prefer a disagreeing case on which the implementation's own output violates the
+    #    property (oracle on the real dumps, guards satisfied) and shrink it keeping exactly that.
     if dis:
-        i = dis[0]
-        small = shrink_case(pid, cfg, cases[i], "agree") if len(dis) < 40 else cases[i]
+        bad = [i for i in dis if violates(ev, i)]
+        if bad and len(dis) < 400:
+            i = bad[0]
+            small = shrink_case(pid, cfg, cases[i], violates)
+        else:
+            i = dis[0]
+            small = shrink_case(pid, cfg, cases[i], lambda e, j: j in e["agree"]) if len(dis) < 40 else cases[i]
+        small = dict(small, dump_at=list(range(len(small["steps"]))))
         so = run_impl(pid, [small], "shrunk")
         sev = eval_cases(pid, cfg, [small], so, name="Shrunk")
-        res.violation("model and implementation disagree on a command sequence (%d of %d cases)" % (len(dis), len(cases)),
+        fails = violates(sev, 0)
+        res.violation("model and implementation disagree on a command sequence (%d of %d cases)%s" % (
+                          len(dis), len(cases), "; on the replayed sequence the implementation's own dumps violate the property" if fails else ""),
                       {"kind": "correspondence", "correspondence": TIE_NAME[pid], "case": small, "observed": so[0],
-                       "oracle_fails_on_impl": bool(sev[orc]), "code_variant": cfg, "disagreeing_cases": len(dis)},
-                      no_input=not sev[orc], suffix="corr")
+                       "oracle_fails_on_impl": fails, "code_variant": cfg, "disagreeing_cases": len(dis)},
+                      no_input=not fails, suffix="corr")
         reported = True
     # 2. oracle failures
     reproduced = {}
@@ -1102,14 +1138,14 @@ def run_property(res, pid, tier, seed, theorems, modules, extra_targets, familie
         c = cases[i]
         outside = [g for g in guards if i in ev[g]]          # guards that are FALSE on this case
         if not outside:
-            small = shrink_case(pid, cfg, c, orc)
-            res.violation("the property fails on the real FSM for a sequence inside the domain of the guarded theorems",
+            small = shrink_case(pid, cfg, c, violates)
+            res.violation("the property fails on the real FSM for a sequence inside the domain of the theorems",
                           {"kind": "oracle", "case": small, "code_variant": cfg}, suffix="oracle")
             reported = True
             break
         unknown = [g for g in outside if GUARD_SIG[g] not in known]
         if len(unknown) == len(outside):
-            small = shrink_case(pid, cfg, c, orc)
+            small = shrink_case(pid, cfg, c, lambda e, j: j in e[orc])
             res.violation("the property fails on the real FSM (class %s is not a listed known finding)" % ",".join(GUARD_SIG[g] for g in outside),
                           {"kind": "oracle", "case": small, "code_variant": cfg}, suffix="oracle")
             reported = True
